@@ -463,11 +463,13 @@ class DocumentationAggregator(CMakeListener):
             return
 
         name = ""
+        name_index = -1  # Position of the NAME keyword, if any
         for i in range(0, len(params)):
             param = params[i]
             if param.upper() == "NAME":
                 try:
                     name = params[i + 1]
+                    name_index = i
                 except IndexError:
                     pretty_text = docstring
                     pretty_text += f"\n{ctx.getText()}"
@@ -475,7 +477,10 @@ class DocumentationAggregator(CMakeListener):
                     self.logger.error(f"add_test() called with incorrect parameters: {params}\n\n{pretty_text}")
                     return
 
-        test_doc = CTestDocumentation(name, docstring, [p for p in params if p != name and p != "NAME"])
+        # Drop the NAME keyword and its value by position, other arguments may repeat the name
+        test_doc = CTestDocumentation(
+            name, docstring, [p for i, p in enumerate(params) if name_index < 0 or i not in (name_index, name_index + 1)]
+        )
         self.documented.append(test_doc)
 
     def process_option(self, ctx: CMakeParser.Command_invocationContext, docstring: str) -> None:
